@@ -1,5 +1,4 @@
 """C10 — client multiplexing: distinct tags/fids, replies reach their own caller, no hang."""
-import os
 import vlib
 
 ID = "C10"
@@ -23,7 +22,7 @@ LEVEL_NOTE = ("Trusted: Coq kernel + vm_compute; hand model Client/Mux.v (atomic
 DESIGN_REF = "6/C10"
 ASSUMPTIONS = [
     "sync.Mutex / channel operations are atomic and sequentially consistent; sync.Pool returns some object no running call holds",
-    "C10_later_fail: once the connection has failed, every later send and receive on it fails (dead_forever in the model)",
+    "C10_later_fail: a connection that failed by itself keeps failing (dead_forever); after an error reported by the client's own recv nothing is assumed (C10_later_fail_after_recv_error)",
     "C10_fid_fresh: the server binds a fid only by a successful binding request and unbinds it by a confirmed clunk/remove (C04); nothing is assumed about how requests fail",
 ]
 TRUSTED_BASE = [
@@ -71,12 +70,7 @@ HEADER = ("From Coq Require Import NArith Arith List.\nFrom P9V Require Import C
 
 
 def run(ctx):
-    try:
-        marks = "recv_error_marks_dead : bool := true" in open(os.path.join(vlib.COQ, "gen", "ClientGen.v")).read()
-    except OSError:
-        marks = False
-    rc, out, obs = ctx.gotest("p9", "^TestVerifC10$", ["vh_common_test.go", "vhcl_common_test.go", "c10_test.go"], timeout=1500,
-                              env={"VERIF_C10_MARKS": "1" if marks else "0"})
+    rc, out, obs = ctx.gotest("p9", "^TestVerifC10$", ["vh_common_test.go", "vhcl_common_test.go", "c10_test.go"], timeout=1500)
     if rc != 0 or not obs:
         ctx.harness_broken("harness TestVerifC10 failed or hung (rc=%d)" % rc, out)
         if not obs:
